@@ -188,7 +188,9 @@ def textOfBytesAscii (b : Bytes) : Option String :=
 /-- One `<Enumeration label=… value=…/>` entry: string-encoded keys are written as text, numeric keys as numbers. -/
 def writeEnumEntry (u : Option String) (enc : Encoding) (kv : PyVal × String) : LoadM XmlNode :=
   match (match enc, kv.1 with
-      | .str _, .bytes b => (match textOfBytesAscii b with | some s => .ok s | none => .error Err.unsupported)
+      | .str e, .bytes b => (match decodeText e.codec b with
+        | some s => if s.toList.all (fun c => c.toNat < 128) then .ok s else .error Err.unsupported
+        | none => .error Err.value)
       | _, v => showNum v : LoadM String) with
   | .error e => .error e
   | .ok v => .ok (mkEl u "Enumeration" [("label", kv.2), ("value", v)] [])
